@@ -1,10 +1,12 @@
+//go:debug randseednop=0
+
 // C01 — security handshakes authenticate the remote peer's identity.
 //
 // Message-level simulation of the REAL Noise and TLS security transports (and, in two smaller strata,
 // of the real upgrader and the real swarm dial path) with an adversary who owns the wire or sits at
 // the other end. Everything of go-libp2p that runs here is instrumented (lock-level scheduling).
 //
-// Strata (first draw of the tape, 16 : 3 : 1)
+// Strata (first draw of the tape, 13 pipe : 3 quic : 3 upgrader : 1 swarm)
 //
 //	pipe      SecureOutbound / SecureInbound on the two ends of a raw simnet connection (piperun_test.go):
 //	          config     no adversary; key type per side x expectation per side x Noise session options
@@ -23,6 +25,11 @@
 //	          side; Mallory edits a multistream-select frame of the security negotiation (upgrader_test.go)
 //	swarm     node A dials peer P at an address that honest node Q serves; A's security transport is the real
 //	          one or one that does not check the peer it was asked for (swarm_test.go)
+//	quic      real nodes with the real QUIC transport (p2p/transport/quic, quicreuse, quic-go, all instrumented)
+//	          over simnet's UDP model (quic_test.go): A dials P where a node with another key listens; A
+//	          hole-punches towards (address X, peer P) while the node with another key that owns X dials in
+//	          (and with the right peer); control — through Swarm.DialPeer and directly at the transport, under
+//	          drawn loss / duplication / reordering / a partition that heals
 //
 // Oracles (violation classes) and where they come from
 //
@@ -46,6 +53,15 @@
 //	dial-returned-wrong-peer, swarm-lists-conn-to-unauthenticated-peer, swarm-connected-to-unauthenticated-peer,
 //	swarm-conn-wrong-identity   clause 4: DialPeer(P) never hands out / leaves behind a connection for P that
 //	                            was authenticated as somebody else
+//	dial-returned-wrong-peer/quic, quic-holepunch-returned-wrong-peer, wrong-identity/quic/{inbound,outbound}
+//	                            clauses 1 and 4 for QUIC: what Dial hands out is the peer that was asked for, and
+//	                            every connection of every swarm names the process that owns the remote UDP address
+//	                            (nodes dial from their listen port), i.e. the key that completed the TLS handshake
+//	quic-holepunch-swallowed-inbound-connection
+//	                            (asked for by the coordinator; fault-free runs only) an honest node with its own
+//	                            identity that dials in while a punch for another peer is pending ends up in the swarm
+//	quic-holepunch-refused-right-peer, honest-handshake-refused/quic/*
+//	                            vacuity guards: fault-free, or a fresh dial 2 s after the faults stopped
 //	honest-handshake-refused    not a clause of the statement but the guard against vacuity: without adversary
 //	                            and with compatible settings both sides complete and exchange data
 //
@@ -80,6 +96,10 @@
 // by a watchdog one virtual second before its context deadline (Noise arms connection deadline and
 // context timer for the same instant; which fires first is up to the Go runtime).
 //
+// Stratum quic is different: there crypto/rand IS pinned (simrand.Install, seed from the tape; RSA identity
+// keys are built before it is installed) and math/rand's global source is seeded per run (the hole-punch loop
+// draws its pauses from it), so lengths and connection ids replay; datagram fates come from the tape.
+//
 // Sensitivity (each mutation applied alone to a private copy of the generated overlay, 8 workers; all
 // reported within 5 s of running):
 //
@@ -93,6 +113,7 @@
 //	tls: len(chain) != 1 relaxed to < 1                    -> tls-chain-length-accepted/*/chain-length-2
 //	tls: ConfigForPeer without Clone()                     -> honest-handshake-refused/tls/* (concurrent sessions of one transport)
 //	tls: LRU of verified extensions keyed by extension bytes (seeded) -> forged-credential-accepted/tls/{initiator,responder}/verified-credential-replayed
+//	quic: hole punches keyed by address only (seeded)      -> quic-holepunch-returned-wrong-peer/transport, quic-holepunch-swallowed-inbound-connection/{swarm,transport}
 //	upgrader: SecureInbound called with "" instead of p    -> expected-peer-ignored/upgrader/responder
 //	swarm: both re-checks of RemotePeer() removed          -> dial-returned-wrong-peer/{noise,tls} (lax transport)
 //	swarm: only dialAddr's or only dialPeer's re-check removed -> NOT reported (masked by the other one, see above)
@@ -110,18 +131,32 @@ import (
 	"verifsim/simrt"
 )
 
-func TestSim(t *testing.T) { common.Main(t, common.Harness{Property: "C01", Run: run}) }
+func TestSim(t *testing.T) {
+	warmKeys()
+	common.Main(t, common.Harness{Property: "C01", Run: run})
+}
 
 func run(t *testing.T, tape *simrt.Tape) *common.Outcome {
 	g := simrt.Gen{S: tape.G}
 	o := &common.Outcome{}
-	switch g.Weighted(16, 3, 1) {
-	case 0:
+	// 13 : 3 (quic) : 3 : 1 — the QUIC stratum took values 13..15 of the first draw, so that tapes of the older
+	// strata (pipe 0..12, upgrader 16..18, swarm 19) keep their meaning
+	v := g.Int(20)
+	if os.Getenv("C01_ONLY_QUIC") != "" { // debugging aid
+		v = 13
+	}
+	switch {
+	case v < 13:
 		runPipe(t, tape, g, o)
-	case 1:
+	case v < 16:
+		runQUIC(t, tape, g, o)
+	case v < 19:
 		runUpgrader(t, tape, g, o)
-	case 2:
+	default:
 		runSwarm(t, tape, g, o)
+	}
+	if os.Getenv("C01_SIGDUMP") != "" {
+		fmt.Fprintf(os.Stderr, "SIG %s hash=%x steps=%d rsa/R=%s\n", o.Sig, o.Sched.Hash, o.Sched.Steps, pidOf(ident{ktRSA, slotR}))
 	}
 	if f := traceFilter; f != "" && len(o.Trace) > 0 && strings.Contains(strings.Join(o.Trace, "\n"), f) {
 		fmt.Fprintln(os.Stderr, strings.Join(o.Trace, "\n")+"\n")
